@@ -572,6 +572,9 @@ func (e *Engine) registerVstub() {
 		e.invoke(a[0], nil)
 		return term.False
 	})
+	reg("B2U8", func(e *Engine, fn *ssa.Function, a []Value) Value {
+		return term.Ite(a[0].(*term.Term), term.Const(8, 1), term.Const(8, 0))
+	})
 	reg("IsSymbolic", func(e *Engine, fn *ssa.Function, a []Value) Value { return term.True })
 }
 
